@@ -290,6 +290,30 @@ fn spice(r: &mut Rng, nodes: &mut [GNode]) {
     }
 }
 
+/// Key 3 is the numeric column: Int64 and Float64 values mixed, from a small pool with numeric
+/// ties across the kinds (5 and 5.0, 0 and 0.0 and -0.0), a float beyond 2^53, negatives, and now
+/// and then an infinity or a NaN. Predicates never look at it (the core model has no floats).
+fn add_numeric_column(r: &mut Rng, nodes: &mut [GNode]) {
+    let f = |x: f64| format!("F{:016x}", x.to_bits());
+    let common = [
+        "I5".to_string(), f(5.0), f(2.5), f(1.0), "I1".to_string(), f(-0.0), f(0.0), "I0".to_string(), f(7.5),
+        "I7".to_string(), f(-3.5), "I-3".to_string(), f(9007199254740994.0), "I2".to_string(), f(2.5), f(5.0),
+    ];
+    let rare = [f(f64::INFINITY), f(f64::NAN), f(f64::NEG_INFINITY), f(9007199254740992.0), "I9007199254740993".to_string(), f(0.1), f(0.2)];
+    let exotic = r.chance(1, 6);
+    for n in nodes.iter_mut() {
+        if r.chance(4, 5) {
+            let v = if exotic && r.chance(1, 4) { r.pick(&rare).clone() } else { r.pick(&common).clone() };
+            n.props.push((3, v));
+        }
+    }
+}
+
+/// the property key of an aggregate or a group key: the numeric column often
+fn pick_key(r: &mut Rng) -> u64 {
+    if r.chance(2, 5) { 3 } else { r.below(3) }
+}
+
 fn gen_items(r: &mut Rng, nvars: u64) -> (String, String, String, String) {
     let nkeys = *r.pick(&[0usize, 0, 0, 1, 1, 1, 1, 2]);
     let unique_keys = nkeys > 0 && r.chance(1, 3);
@@ -301,7 +325,7 @@ fn gen_items(r: &mut Rng, nvars: u64) -> (String, String, String, String) {
             }
             format!("key:{}.9", i)
         } else {
-            format!("key:{}.{}", r.below(nvars), r.below(3))
+            format!("key:{}.{}", r.below(nvars), if r.chance(1, 4) { 3 } else { r.below(3) })
         };
         if !keys.contains(&k) {
             keys.push(k);
@@ -318,7 +342,7 @@ fn gen_items(r: &mut Rng, nvars: u64) -> (String, String, String, String) {
         if f == "cntv" || f == "cntvd" {
             aggs.push(format!("{}:{}", f, r.below(nvars)));
         } else {
-            aggs.push(format!("{}:{}.{}", f, r.below(nvars), if r.chance(1, 8) { 9 } else { r.below(3) }));
+            aggs.push(format!("{}:{}.{}", f, r.below(nvars), if r.chance(1, 8) { 9 } else { pick_key(r) }));
         }
     }
     let nk = keys.len();
@@ -434,6 +458,7 @@ pub fn generate(seed: u64, cases: usize, out: &mut Vec<String>) {
         if r.chance(1, 3) {
             spice(&mut r, &mut nodes);
         }
+        add_numeric_column(&mut r, &mut nodes);
         let (na, ea) = (nodes_arg(&nodes), edges_arg(&edges));
         // ---- grouping / aggregates, GQL and Cypher
         for i in 0..4 {
